@@ -92,13 +92,15 @@ def run(tier, rep):
                 rejected = False
             except Exception:
                 tree, rejected = None, True
-            got = "REJECTED"
-            if not rejected:
+            got, readable, note = s["expect"], True, ""            # placeholder of the expected shape (TLC compares like with like)
+            if rejected:
+                note = "REJECTED"
+            else:
                 try:
                     got = ex(tree)
                 except Exception as e2:
-                    got = "UNREADABLE: %s" % type(e2).__name__
-            recs.append({"g": s["g"], "text": s["text"], "ok": s["ok"], "expect": s["expect"], "rejected": rejected, "got": got})
+                    readable, note = False, "UNREADABLE: %s: %s" % (type(e2).__name__, str(e2)[:80])
+            recs.append({"g": s["g"], "text": s["text"], "ok": s["ok"], "expect": s["expect"], "rejected": rejected, "got": got, "readable": readable, "note": note})
         bf = os.path.join(wd, "syntax.json")
         json.dump({"recs": recs}, open(bf, "w"))
         lines, st2 = tlc.run("SyntaxTrace", CFG, wd, env={"SYNTAX_BATCH": bf}, workers=4, tag="chk", timeout=900)
@@ -108,7 +110,7 @@ def run(tier, rep):
         for s in tlc.printed(lines, "SYNTAX|"):
             _, r, clause = s.split("|", 2)
             rec = recs[int(r) - 1]
-            rep.violation(dict(kind="syntax", clause=clause, spec=rec["text"], grammar=rec["g"], expected=rec["expect"], got=rec["got"], text="", family="syntax-" + rec["g"]))
+            rep.violation(dict(kind="syntax", clause=clause, spec=rec["text"], grammar=rec["g"], expected=rec["expect"], got=rec["note"] or rec["got"], text="", family="syntax-" + rec["g"]))
     by = {}
     for r in recs:
         by[r["g"] + ("" if r["ok"] else "-nearmiss")] = by.get(r["g"] + ("" if r["ok"] else "-nearmiss"), 0) + 1
@@ -120,4 +122,4 @@ def run(tier, rep):
     rep.cov["exhaustive"] = True
     rep.cov["rule"] = "every sentence Syntax.tla defines for the tier's bound (exhaustive enumeration by TLC); distinct = distinct texts"
     for r in recs[:2] + [x for x in recs if x["g"] == "einsum"][:2]:
-        rep.sample({"grammar": r["g"], "text": r["text"], "in_grammar": r["ok"], "expected": r["expect"], "parser_returned": r["got"]})
+        rep.sample({"grammar": r["g"], "text": r["text"], "in_grammar": r["ok"], "expected": r["expect"], "parser_returned": r["note"] or r["got"]})
